@@ -16,7 +16,10 @@ def one(name):
     meta = json.load(open(os.path.join(d, "meta.json")))
     checks = list(meta["checks_quick"].keys())
     subprocess.run([os.path.join(V, "tools", "eval_seed.sh"), d, name] + checks, stdout=subprocess.DEVNULL, stderr=subprocess.DEVNULL)
-    res = open(os.path.join(V, "build", "seedeval", name + ".txt")).read().splitlines()
+    rf = os.path.join(V, "build", "seedeval", name + ".txt")
+    if not os.path.exists(rf):   # patch no longer applies to /repo HEAD (a later fix: commit rewrote its context): keep the old record
+        return name, dict(meta.get("confirmed", {}), patch_applies="NO (HEAD moved on)"), meta["checks_quick"]
+    res = open(rf).read().splitlines()
     meta["checks_quick"] = {l.split()[0][6:]: ("detected" if "rc=1" in l else "missed" if "rc=0" in l else "error") for l in res if l.startswith("check_")}
     meta["confirmed"] = {l.split("=")[0]: l.split("=", 1)[1] for l in res if "=" in l and not l.startswith("check_")}
     json.dump(meta, open(os.path.join(d, "meta.json"), "w"), indent=1)
